@@ -137,7 +137,7 @@ def rand_value(rng, depth=3, allow_bad=True, width=4):
     return frozenset(rand_hashable(rng, depth - 1, allow_bad) for _ in range(n))
 
 
-def special_values():
+def special_values(extended=False):
     big = [2**31 - 1, 2**31, -(2**31), -(2**31) - 1, -(2**31) - 2, -(10**12), 10**300, -(10**300), -(2**64)]
     deep = None
     for _ in range(30):
@@ -148,7 +148,8 @@ def special_values():
                   "\ud800", "\udbff", "\udc00", "\udc80", "a\udcffb", "\udfff", ["\udc80"], {"\udcfe": 1}, ("x", "\udc81"),
                   "\ufeff", "\ufeffabc", {"\ufeffk": 1, "k": 2}, ["\ufeff\ufeff"], "\ufffe", "\x00\ufeff",
                   b"x" * 70000, [b"z" * 65537, b"w" * 65536],
-                  float("nan"), [float("nan")], (float("inf"), -0.0), complex(float("nan"), -0.0)] + ordered_pairs()
+                  float("nan"), [float("nan")], (float("inf"), -0.0), complex(float("nan"), -0.0),
+                  {float("nan"): 1, float("nan"): 2}, {(float("nan"),): 1, (float("nan"), 1): 2}, {float("nan"), float("nan"), 1.0}] + (ordered_pairs() if extended else [])
 
 
 def subclass_models():
